@@ -88,6 +88,8 @@ class Outcome:
         self.runs = 0            # simulated runs (faulted or strict)
         self.ref_runs = 0        # reference (fault-free baseline) runs
         self.steps = 0           # simulated steps (trapped syscalls / E2 ops)
+        self.clock_reads = 0     # readings of the simulated clock (E1)
+        self.random_bytes = 0    # bytes served by the simulated getrandom (E1)
         self.faults = {}         # kind -> [configured, delivered]
         self.probes = {}         # name -> count
         self.sigs = []           # distinct-nontrivial signatures (strings)
@@ -101,6 +103,8 @@ class Outcome:
         else:
             self.runs += 1
         self.steps += r.get('steps', 0)
+        self.clock_reads += r.get('clock_reads', 0)
+        self.random_bytes += r.get('random_bytes', 0)
         h = r.get('log_hash')
         if h:
             self.hashes.append(h)
@@ -126,7 +130,7 @@ class Outcome:
     def to_dict(self):
         return {'violations': self.violations, 'runs': self.runs, 'ref_runs': self.ref_runs, 'steps': self.steps,
                 'faults': self.faults, 'probes': self.probes, 'sigs': self.sigs, 'hashes': self.hashes,
-                'sample': self.sample, 'skipped': self.skipped}
+                'sample': self.sample, 'skipped': self.skipped, 'clock_reads': self.clock_reads, 'random_bytes': self.random_bytes}
 
 
 def outcome_digest(od):
@@ -370,6 +374,8 @@ def _do_run(check, check_mod, pool, tier, seed, t_start, max_cases, nworkers, ti
         agg.runs += od['runs']
         agg.ref_runs += od['ref_runs']
         agg.steps += od['steps']
+        agg.clock_reads += od.get('clock_reads', 0)
+        agg.random_bytes += od.get('random_bytes', 0)
         for k, v in od['faults'].items():
             c = agg.faults.setdefault(k, [0, 0])
             c[0] += v[0]
@@ -476,14 +482,17 @@ def _do_run(check, check_mod, pool, tier, seed, t_start, max_cases, nworkers, ti
             'simulated_steps': agg.steps,
             'runs_per_hour': int(total_runs / wall * 3600) if wall > 0 else 0,
             'steps_per_hour': int(agg.steps / wall * 3600) if wall > 0 else 0,
-            'simulated_time': 'not applicable: the programs have no clock or timer; coverage is counted in simulated steps (decided system calls / storage operations)',
+            'simulated_time': ('the programs set no timer and read no deadline; the only clock readings are the C library\'s own (temporary-file names): '
+                               '%d readings of the simulated clock (1 ms of simulated time each), %d bytes from the simulated getrandom; '
+                               'coverage is counted in simulated steps (decided system calls / storage operations)' % (agg.clock_reads, agg.random_bytes))
+                              if 'E1' in getattr(check, 'engine', '') else 'not applicable: library code behind the FileAccess seam reads no clock; coverage is counted in storage operations',
             'distinct_event_logs': len(hashset),
             'faults_configured_delivered': {k: {'configured': v[0], 'delivered': v[1]} for k, v in sorted(agg.faults.items())},
             'probes': dict(sorted(agg.probes.items())),
             'skipped': dict(sorted(agg.skipped.items())),
             'determinism_gate': {'cases_rerun': det_checked, 'mismatches': det_mismatch},
             'real_components': check.real_components,
-            'stubbed_components': check.stubbed_components,
+            'stubbed_components': check.stubbed_components + (['clock_gettime/gettimeofday/time and getrandom: answered by the simulated kernel (vDSO hidden from the program)'] if 'E1' in getattr(check, 'engine', '') else []),
             'workers': nworkers,
             'exhaustive': False,
             'known_findings_matched': [{'what': f.get('what'), 'count': c} for f, _, c, _ in known_hits],
